@@ -1,6 +1,6 @@
 (* C03 - Outputs equal their documented definitions on a direct correlation. *)
 From Coq Require Import ZArith List.
-From BF Require Import Base.Util Model.Crop Model.Corr Model.Eval Proofs.CropP Proofs.CorrP Proofs.EvalP.
+From BF Require Import Base.Util Model.Crop Model.Corr Model.Eval Model.Pipeline Proofs.CropP Proofs.CorrP Proofs.EvalP Proofs.ComposeP.
 Open Scope Z_scope.
 
 (* what the FFT pipeline computes (cyclic convolution rotated by N/2) is the circular cross-correlation with the
@@ -61,3 +61,26 @@ Theorem C03_full_map_zero_outside : forall fy fx f c py px y x,
   crop_px_at fy fx f c py px y x = Some (pad0 fy fx f (py - c + y) (px - c + x)).
 Proof. exact Proofs.CropP.crop_px_spec. Qed.
 Print Assumptions C03_full_map_zero_outside.
+
+(* composed, at the level of the property: for a centro-symmetric mask the height reported for a peak is the maximum over the
+   search window of the circular cross-correlation of the log-scaled crop (crop-based method) resp. frame (full-frame method,
+   window inside the frame) with the centred mask, and the reported centre is a window position attaining it *)
+Theorem C03_fast_height_is_window_maximum_of_cross_correlation : forall one lg fy fx f c mask py px, 1 <= c -> csym (2 * c) (2 * c) mask ->
+  let L := Corr.of_list2 (fast_logwin one lg fy fx f c py px) in
+  let r := fast_peak one lg fy fx f c mask (py, px) in
+  (forall y x, 0 <= y < 2 * c -> 0 <= x < 2 * c -> xcorr (2 * c) (2 * c) L mask y x <= r_height r) /\
+  (exists y x, 0 <= y < 2 * c /\ 0 <= x < 2 * c /\ r_height r = xcorr (2 * c) (2 * c) L mask y x /\
+               r_cy r = y + py - c /\ r_cx r = x + px - c).
+Proof. exact fast_height_is_window_maximum_of_xcorr. Qed.
+Print Assumptions C03_fast_height_is_window_maximum_of_cross_correlation.
+
+Theorem C03_full_height_is_window_maximum_of_cross_correlation : forall one lg fy fx f c mask py px,
+  1 <= c -> 1 <= fy -> 1 <= fx -> csym fy fx mask ->
+  0 <= py - c -> py + c <= fy -> 0 <= px - c -> px + c <= fx ->
+  let L := Corr.of_list2 (full_logframe one lg fy fx f) in
+  let r := full_peak one lg fy fx f c mask (py, px) in
+  (forall y x, 0 <= y < 2 * c -> 0 <= x < 2 * c -> xcorr fy fx L mask (py - c + y) (px - c + x) <= r_height r) /\
+  (exists y x, 0 <= y < 2 * c /\ 0 <= x < 2 * c /\ r_height r = xcorr fy fx L mask (py - c + y) (px - c + x) /\
+               r_cy r = y + py - c /\ r_cx r = x + px - c).
+Proof. exact full_height_is_window_maximum_of_xcorr. Qed.
+Print Assumptions C03_full_height_is_window_maximum_of_cross_correlation.
